@@ -93,8 +93,15 @@ func c06WireTable(rep *verifkit.Report, rng *rand.Rand, idx int) {
 		switch rng.Intn(9) {
 		case 0, 1, 2:
 			ans = fmt.Sprintf("10.0.%d.%d", rng.Intn(3), 1+rng.Intn(5))
+			if rng.Intn(8) == 0 {
+				ans = []string{"0.0.0.0", "127.0.0.1"}[rng.Intn(2)]
+			}
 		case 3, 4:
 			ans = fmt.Sprintf("2001:db8::%x", 1+rng.Intn(6))
+			if rng.Intn(3) == 0 {
+				// Unusual spellings; the family is that of the literal.
+				ans = []string{"::ffff:10.0.0.5", "::ffff:a00:5", "::ffff:10.0.1.1", "::10.0.0.5", "2001:DB8:0:0::1", "::", "::1"}[rng.Intn(7)]
+			}
 		case 5, 6:
 			ans = c06WireNames[rng.Intn(len(c06WireNames))]
 		case 7:
@@ -215,7 +222,7 @@ func c06WireTable(rep *verifkit.Report, rng *rand.Rand, idx int) {
 				for _, a := range addrs {
 					ok := false
 					for _, rw := range rws {
-						if ip, perr := netip.ParseAddr(rw.Answer); perr == nil && ip.String() == a && c06WireMatch(rw.Domain, final) {
+						if ip, perr := netip.ParseAddr(rw.Answer); perr == nil && ip.String() == a && ip.Is4() == (qt == dns.TypeA) && c06WireMatch(rw.Domain, final) {
 							ok = true
 						}
 					}
@@ -240,7 +247,7 @@ func c06WireTable(rep *verifkit.Report, rng *rand.Rand, idx int) {
 				rep.Class("rendered_values")
 				var want []string
 				for _, ip := range res.IPList {
-					if (qt == dns.TypeA && ip.Is4()) || (qt == dns.TypeAAAA && ip.Is6() && !ip.Is4In6()) {
+					if (qt == dns.TypeA && ip.Is4()) || (qt == dns.TypeAAAA && ip.Is6()) {
 						want = append(want, ip.String())
 					}
 				}
